@@ -2,13 +2,13 @@ package main
 
 import (
 	"fmt"
-	"sync"
 	"go/token"
 	"go/types"
 	"os"
 	"path/filepath"
 	"sort"
 	"strings"
+	"sync"
 	"time"
 
 	"golang.org/x/tools/go/callgraph"
